@@ -142,10 +142,30 @@ def substitute(expr, subs):
             )
             if isinstance(value, (tuple, frozenset)):  # TODO absorb this into interpret
                 env[key] = type(value)(args)
+            elif value.fresh and _subs_collide(value, args):
+                # A substituted child now mentions a name that this node itself
+                # introduces (e.g. Cat("j", parts)(i="j")): rebuilding the node
+                # would identify two different variables, so substitute lazily.
+                node_subs = tuple((k, v) for k, v in subs if k in value.inputs)
+                with interp.base_interpretation:
+                    env[key] = reflect.interpret(Subs, value, node_subs)
             else:
                 interp.fresh = value.fresh
                 env[key] = type(value)(*args)
     return env[expr]
+
+
+def _subs_collide(value, new_args):
+    def names(x):
+        if isinstance(x, Funsor):
+            return frozenset(x.inputs)
+        if isinstance(x, (tuple, frozenset)):
+            return frozenset().union(*map(names, x)) if x else frozenset()
+        return frozenset()
+
+    old = names(tuple(interpreter.children(value)))
+    new = names(new_args)
+    return not value.fresh.isdisjoint(new - old)
 
 
 def _alpha_mangle(expr):
